@@ -14,7 +14,7 @@ import numpy as np
 from harness.common import enc, Z, to_zs, is_err, err_code, kids, tag
 
 PROP = 'C16'
-GENERATORS = []
+GENERATORS = ['gen_frbcache']
 TRUSTED = [
     'hand model coq/C16/Model.v of translate_pixel (pixel-to-pixel links only), np.linspace/meshgrid sampling, np.round (half to even), the validity test, '
     'fancy-index gather, the fill value, dropping scalar-bound axes and the ARRAY_CACHE / PIXEL_CACHE protocol; tied by correspondence only',
@@ -22,12 +22,17 @@ TRUSTED = [
     'link discovery itself belongs to C03',
     'numpy: linspace/round/astype on the generated dyadic and small rational inputs agree with the exact rational computation away from exact half-integers; '
     'unbroadcast/broadcast_to are value-preserving (C20); tuple/list equality calls AnyScalar.__eq__ from the stored (left) side',
+    'bounds_for_cache, AnyScalar.__eq__ and the layout of the key tuples are translated from the source on every run (tools/gen/gen_frbcache.py, fail-closed ast '
+    'translator; `return <argument>` = the caller\'s object); the rest of the cache protocol is the hand model',
     'full masks of the subset states are computed by numpy from the attribute values and handed to the model (evaluation of subset states under a view is C04/C01)',
 ]
 ASSUMPTIONS = [
     'positions that fall exactly on a half-integer are not generated (both neighbours are nearest)',
     'a linked position that is not a finite number (NaN, +-inf from a partial link function) counts as outside the source: NaN / not selected',
-    'subset states and data are not mutated between requests under one cache id (C05)',
+    'data values are not changed between requests under one cache id (C05; the property says "for unchanged data"); the objects that DESCRIBE a request '
+    '(the bounds list, a RangeSubsetState) are re-used and changed in place by stream `alias`; a subset state changed in place is the known finding '
+    'subset-state-changed-in-place (theorem state_object_key_refuted), classified by re-running the history with a new state object for every change',
+    'not generated: the caller writing into a returned buffer (ARRAY_CACHE hands out the stored array itself), 0-d numpy arrays as scalar bounds',
     'links through world coordinates (stream world_seq) are modelled as affine functions of the reference pixel position whose reported dimensions are the '
     'connected component computed by the harness; that the component covers the pixel axes used is the hypothesis wf_world of the theorems (C15 proves it for '
     'dependent_axes); genuinely non-linear link functions (log2, sqrt, 1/x) are covered by the oracle-only stream `nonlinear`; dask components are not covered',
@@ -300,6 +305,7 @@ class Built:
         self.data = []
         self.full = []       # per dataset: {'attr': [arrays], 'mask': [arrays]}
         self.states = []
+        self.presets = []
         for k, sh in enumerate(world.shapes):
             size = int(np.prod(sh))
             v = (np.arange(size) + 100 * (k + 1)).reshape(sh)
@@ -321,7 +327,10 @@ class Built:
             thr = 100 * (k + 1) + size // 2
             st = [d.id['v'] > thr, (d.id['u'] < 0) | (d.id['v'] > thr + 1)]
             self.states.append(st)
-            self.full.append({'attr': [v, u], 'mask': [v > thr, (u < 0) | (v > thr + 1)]})
+            pres = state_presets(k, size)
+            self.presets.append(pres)
+            # masks 2.. : what a RangeSubsetState on v selects for each preset range (the alias stream changes lo / hi in place)
+            self.full.append({'attr': [v, u], 'mask': [v > thr, (u < 0) | (v > thr + 1)] + [(v >= lo) & (v <= hi) for lo, hi in pres]})
         self.dc = DataCollection(self.data)
         if getattr(world, 'coords', None) is not None:
             for k in range(1, world.n):
@@ -347,6 +356,17 @@ class Built:
                 else:
                     self.dc.add_link(ComponentLink([self.data[p].pixel_component_ids[j] for j, _ in rel[1]], ci,
                                                    using=mkfun([fr(c) for _, c in rel[1]], fr(rel[2]))))
+
+
+NPRESET = 4
+NMASK = 2 + NPRESET      # masks per dataset on the wire: the two fixed states, then the preset ranges
+NSLOT = 4                # subset-state objects per dataset: 0, 1 = Built.states (never changed), 2, 3 = RangeSubsetState objects changed in place
+
+
+def state_presets(k, size):
+    """(lo, hi) ranges over v = 100 (k + 1) .. 100 (k + 1) + size - 1; the last one is empty"""
+    base = 100 * (k + 1)
+    return [(base, base + size // 2), (base + size // 2 + 1, base + size), (base + 1, base + max(size - 2, 0)), (base + size, base)]
 
 
 def glue_tree(B, s, i, t):
@@ -531,11 +551,12 @@ def expr_enc(tr):
     return (2, [(0, [q_enc(c) for c in tr[1]]), q_enc(tr[2]), (0, [expr_enc(a) for a in tr[3]])])
 
 
-def world_enc(world, full):
+def world_enc(world, full, pad=False):
+    """pad: mask m of dataset k gets the index NMASK * k + m, so that distinct subset-state objects select distinct mask slots"""
     ds = []
     for k, sh in enumerate(world.shapes):
         attrs = (0, [Z(a.ravel().tolist()) for a in full[k]['attr']])
-        masks = (0, [Z([int(x) for x in m.ravel().tolist()]) for m in full[k]['mask']])
+        masks = (0, ([Z([])] * (NMASK * k) if pad else []) + [Z([int(x) for x in m.ravel().tolist()]) for m in full[k]['mask']])
         ds.append((0, [Z(sh), attrs, masks]))
     links = []
     for s in range(world.n):
@@ -1268,6 +1289,426 @@ def stream_nonlinear(R):
                    'value and mask requests, 4-5 requests per cache id; oracle only')
 
 
+# ------------------------------------------------------------------ the caller's objects: re-use and in-place change (round 4)
+# A history is a list of operations on the caller's own objects and of requests that pass those objects:
+#   ['setb', a, i, bound]          bounds_a[i] = bound           (the list object a is kept and changed in place)
+#   ['setall', a, [bound, ...]]    bounds_a[:] = [...]
+#   ['sets', k, slot, preset]      the RangeSubsetState object `slot` (2 or 3) of dataset k gets lo / hi of the preset (in place)
+#   ['req', {...}]                 a request passing the bounds object 'ba' and ('attr', i) | ('state', slot) | ('none',) | ('both', i, slot)
+# Nothing here changes data: only the objects that describe the request.
+KNOWN_STATE_KEY = 'subset-state-changed-in-place'
+
+
+def alias_resolve(r, content, st_content):
+    """the request as a value (what the objects contain when the call is made), in the form `direct` understands"""
+    w = r['what']
+    if w[0] == 'state':
+        what = ['mask', alias_mask_index(r['s'], w[1], st_content)]
+    elif w[0] == 'both':
+        what = ['both', w[1], 0]
+    else:
+        what = list(w)
+    return {'s': r['s'], 't': r['t'], 'bounds': [list(b) for b in content[r['ba']]], 'what': what, 'broadcast': r['broadcast'], 'cache': r['cache']}
+
+
+def alias_mask_index(k, slot, st_content):
+    return slot if slot < 2 else 2 + st_content[(k, slot)]
+
+
+def alias_call(B, r, bounds_obj, states, cache_id):
+    from glue.core.fixed_resolution_buffer import compute_fixed_resolution_buffer
+    s, t = r['s'], r['t']
+    w = r['what']
+    kw = {}
+    if w[0] in ('attr', 'both'):
+        kw['target_cid'] = B.data[s].id[['v', 'u'][w[1]]]
+    if w[0] == 'state':
+        kw['subset_state'] = states[(s, w[1])]
+    if w[0] == 'both':
+        kw['subset_state'] = states[(s, w[2])]
+    tgt = None if (s == t and r.get('implicit_target')) else B.data[t]
+    try:
+        res = compute_fixed_resolution_buffer(B.data[s], bounds_obj, target_data=tgt, broadcast=r['broadcast'], cache_id=cache_id, **kw)
+        return ('ok', np.array(res))
+    except Exception as e:  # noqa
+        return ('err', type(e).__name__)
+
+
+def run_alias(B, case, fresh_bounds=False, fresh_states=False):
+    """-> per request (cached outcome, plain outcome, direct outcome, resolved request, info).
+    fresh_bounds / fresh_states: the same history, but every in-place change is made by building a NEW list / state object
+    (what a caller that never re-uses objects does); used only to describe and classify a failure."""
+    from glue.core import fixed_resolution_buffer as frb
+    from glue.core.subset import RangeSubsetState
+    _seqno[0] += 1
+    ints = case.get('ints', False)
+    content = [[list(b) for b in bl] for bl in case['bounds0']]
+    objs = [[bound_py(b, ints) for b in bl] for bl in content]
+    st_content, states = {}, {}
+    for k in range(B.world.n):
+        states[(k, 0)], states[(k, 1)] = B.states[k]
+        for slot in (2, 3):
+            p = case['states0'][k][slot - 2]
+            states[(k, slot)] = RangeSubsetState(B.presets[k][p][0], B.presets[k][p][1], B.data[k].id['v'])
+            st_content[(k, slot)] = p
+    ids, out = {}, []
+    b_changed, s_changed = set(), set()     # objects changed in place since the history began
+    for op in case['ops']:
+        if op[0] == 'setb':
+            _, a, i, b = op
+            content[a][i] = list(b)
+            if fresh_bounds:
+                objs[a] = list(objs[a])
+            objs[a][i] = bound_py(b, ints)
+            b_changed.add(a)
+        elif op[0] == 'setall':
+            _, a, bl = op
+            content[a] = [list(b) for b in bl]
+            if fresh_bounds:
+                objs[a] = [bound_py(b, ints) for b in bl]
+            else:
+                objs[a][:] = [bound_py(b, ints) for b in bl]
+            b_changed.add(a)
+        elif op[0] == 'sets':
+            _, k, slot, p = op
+            st_content[(k, slot)] = p
+            lo, hi = B.presets[k][p]
+            if fresh_states:
+                states[(k, slot)] = RangeSubsetState(lo, hi, B.data[k].id['v'])
+            else:
+                states[(k, slot)].lo = lo
+                states[(k, slot)].hi = hi
+            s_changed.add((k, slot))
+        else:
+            r = op[1]
+            cid = None
+            if r['cache'] is not None:
+                cid = 'alias%d-%s' % (_seqno[0], r['cache'])
+                ids[r['cache']] = cid
+            rr = alias_resolve(r, content, st_content)
+            cached = alias_call(B, r, objs[r['ba']], states, cid)
+            plain = alias_call(B, r, objs[r['ba']], states, None)
+            info = {'bounds_object_changed_in_place': r['ba'] in b_changed,
+                    'state_object_changed_in_place': r['what'][0] == 'state' and (r['s'], r['what'][1]) in s_changed}
+            out.append((cached, plain, direct(B.world, B.full, rr), rr, info))
+    for cid in ids.values():
+        frb.ARRAY_CACHE.pop(cid, None)
+        frb.PIXEL_CACHE.pop(cid, None)
+    return out
+
+
+def bound_enc(b):
+    if b[0] == 's':
+        return (1, [q_enc(b[1])])
+    return (2, [q_enc(b[1]), q_enc(b[2]), int(b[3])])
+
+
+def alias_enc(world, full, case):
+    """wire form of a history: the world (masks padded), the caller's objects, the operations"""
+    def st_addr(k, slot):
+        return NSLOT * k + slot
+    hs = []
+    for k in range(world.n):
+        hs += [NMASK * k, NMASK * k + 1] + [NMASK * k + 2 + p for p in case['states0'][k]]
+    heap = (0, [(0, [(0, [bound_enc(b) for b in bl]) for bl in case['bounds0']]), Z(hs)])
+    ops = []
+    cache_num = {None: None, 'A': 1, 'B': 2}
+    for op in case['ops']:
+        if op[0] == 'setb':
+            ops.append((1, [op[1], op[2], bound_enc(op[3])]))
+        elif op[0] == 'setall':
+            ops.append((2, [op[1], (0, [bound_enc(b) for b in op[2]])]))
+        elif op[0] == 'sets':
+            ops.append((3, [st_addr(op[1], op[2]), NMASK * op[1] + 2 + op[3]]))
+        else:
+            r = op[1]
+            w = r['what']
+            if w[0] == 'attr':
+                we = (1, [w[1]])
+            elif w[0] == 'state':
+                we = (2, [st_addr(r['s'], w[1])])
+            elif w[0] == 'both':
+                we = (3, [w[1], st_addr(r['s'], w[2])])
+            else:
+                we = (0, [])
+            c = cache_num[r['cache']]
+            ops.append((4, [(0, [r['s'], r['t'], r['ba'], we, 1 if r['broadcast'] else 0, (0, []) if c is None else (1, [c])])]))
+    return enc((3, [world_enc(world, full, pad=True), heap, (0, ops)]))
+
+
+def gen_alias_case(rng, world, full, maxlen):
+    t = rng.randrange(world.n)
+    s = rng.choice([t] + list(range(world.n)) * 2)
+    for _ in range(4):
+        if all(x is not None for x in world.exprs(s, t)):
+            break
+        t = rng.randrange(world.n)
+        s = rng.choice([t] + list(range(world.n)) * 2)
+    nt = len(world.shapes[t])
+    sp = rng.choice([0.0, 0.0, 0.3, 0.45])        # half of the histories use ranged bounds only (a 2-d image, a full block)
+    case = {'bounds0': [[gen_bound(rng, size, scalar_p=sp) for size in world.shapes[t]] for _ in range(2)],
+            'states0': [[rng.randrange(NPRESET), rng.randrange(NPRESET)] for _ in range(world.n)],
+            'ints': rng.random() < 0.3, 'ops': []}
+    content = [[list(b) for b in bl] for bl in case['bounds0']]
+    st_content = {(k, slot): case['states0'][k][slot - 2] for k in range(world.n) for slot in (2, 3)}
+    whats = [['attr', 0], ['attr', 0], ['attr', 1], ['state', 0], ['state', 2], ['state', 2], ['state', 3]]
+    cur = {'s': s, 't': t, 'ba': 0, 'what': rng.choice(whats), 'broadcast': rng.random() < 0.8, 'cache': 'A',
+           'implicit_target': rng.random() < 0.3}
+    nreq = 0
+    n = rng.randrange(3, maxlen + 1)
+    tries = 0
+    first = True
+    while nreq < n and tries < 80:
+        tries += 1
+        new = dict(cur, what=list(cur['what']))
+        muts = []
+        c2 = [[list(b) for b in bl] for bl in content]
+        s2 = dict(st_content)
+        kind = 'repeat' if first else rng.choice(['mutb'] * 5 + ['muts'] * 3 + ['swap', 'what', 'source', 'target', 'broadcast', 'cache', 'repeat', 'setall'])
+        first = False
+        if kind == 'mutb':
+            a = new['ba'] if rng.random() < 0.8 else 1 - new['ba']
+            for _ in range(rng.choice([1, 1, 2])):
+                i = rng.randrange(nt)
+                size = world.shapes[new['t']][i]
+                if c2[a][i][0] == 's' and rng.random() < 0.7:
+                    b = gen_bound(rng, size, scalar_p=1.0)
+                else:
+                    b = gen_bound(rng, size, scalar_p=sp)
+                c2[a][i] = b
+                muts.append(['setb', a, i, b])
+        elif kind == 'setall':
+            a = new['ba']
+            bl = [gen_bound(rng, size, scalar_p=sp) for size in world.shapes[new['t']]]
+            c2[a] = bl
+            muts.append(['setall', a, bl])
+        elif kind == 'muts':
+            slot = new['what'][1] if (new['what'][0] == 'state' and new['what'][1] >= 2 and rng.random() < 0.7) else rng.choice([2, 3])
+            p = rng.randrange(NPRESET)
+            s2[(new['s'], slot)] = p
+            muts.append(['sets', new['s'], slot, p])
+            if rng.random() < 0.7:
+                new['what'] = ['state', slot]
+        elif kind == 'swap':
+            new['ba'] = 1 - new['ba']
+        elif kind == 'what':
+            new['what'] = list(rng.choice(whats))
+        elif kind == 'source':
+            new['s'] = rng.randrange(world.n)
+        elif kind == 'target':
+            same_nd = [k for k in range(world.n) if k != new['t'] and len(world.shapes[k]) == nt]
+            if same_nd:
+                new['t'] = rng.choice(same_nd)
+        elif kind == 'broadcast':
+            new['broadcast'] = not new['broadcast']
+        elif kind == 'cache':
+            new['cache'] = rng.choice(['A', 'A', 'B', None])
+        if direct(world, full, alias_resolve(new, c2, s2))[0] == 'half':
+            continue                      # both neighbours are nearest: not generated (the change is not made either)
+        case['ops'] += muts
+        case['ops'].append(['req', new])
+        content, st_content, cur = c2, s2, new
+        nreq += 1
+    return case
+
+
+def alias_known_key(B, case, k, cls):
+    """KNOWN_STATE_KEY when the cache failure at request k needs a subset-state object changed in place: the request passes such an
+    object and the failure disappears when every change of a state is made by building a new state object (nothing else altered)"""
+    if cls != 'cache':
+        return None
+    reqs = [op for op in case['ops'] if op[0] == 'req']
+    r = reqs[k][1]
+    if r['what'][0] != 'state' or r['what'][1] < 2:
+        return None
+    if not any(op[0] == 'sets' and op[1] == r['s'] and op[2] == r['what'][1] for op in case['ops']):
+        return None
+    res = run_alias(B, case, fresh_states=True)
+    cached, plain = res[k][0], res[k][1]
+    return KNOWN_STATE_KEY if same_out(cached, plain) else None
+
+
+def alias_cut(case, k):
+    """the history up to and including request k"""
+    ops, n = [], -1
+    for op in case['ops']:
+        ops.append(op)
+        if op[0] == 'req':
+            n += 1
+            if n == k:
+                break
+    return dict(case, ops=ops)
+
+
+def judge_alias(R, world_spec, case, res, B, model_cached=None, model_plain=None):
+    for k, (cached, plain, dr, rr, info) in enumerate(res):
+        fc = None
+        if not same_out(cached, plain):
+            fc = ('cache', {'why': 'result with cache_id differs from result without (the caller re-uses and changes its own objects in place; data unchanged)',
+                            'cached': brief(cached), 'uncached': brief(plain)})
+        elif dr[0] == 'ok' and not same_out(plain, dr):
+            fc = ('nearest', {'why': 'buffer differs from nearest-pixel resampling', 'impl': brief(plain), 'expected': brief(dr)})
+        elif dr[0] == 'err' and plain[0] == 'ok':
+            fc = ('nearest', {'why': 'an array is returned where none can be computed', 'impl': brief(plain), 'expected': brief(dr)})
+        if fc is not None:
+            cut = alias_cut(case, k)
+            c = {'stream': 'alias', 'world': world_spec, 'history': cut, 'index': k, 'request_as_value': rr, 'objects': info}
+            key = alias_known_key(B, cut, k, fc[0])
+            if key is not None:
+                R.hist['oracle_failure_class']['cache-state-in-place (known)'] += 1
+                kk = ('oracle', 'known-state')
+                _nfail[kk] = _nfail.get(kk, 0) + 1
+                if _nfail[kk] <= 3:
+                    R.fail('oracle', c, dict(fc[1], failure_class='cache-state-in-place'), key=key)
+            else:
+                if fc[0] == 'cache':
+                    fresh = run_alias(B, cut, fresh_bounds=True, fresh_states=True)
+                    fc[1]['with_new_objects_for_every_change'] = 'same result as without cache_id' if same_out(fresh[k][0], fresh[k][1]) else 'still differs'
+                oracle_fail(R, c, fc[1], fc[0])
+        if model_cached is not None:
+            is_mask = rr['what'][0] == 'mask'
+            mc, mp = dec_out(model_cached[k], is_mask), dec_out(model_plain[k], is_mask)
+            if not same_out(mc, cached):
+                corr_fail(R, {'stream': 'alias', 'world': world_spec, 'history': alias_cut(case, k), 'index': k, 'observed': 'cached'},
+                          {'model': brief(mc), 'impl': brief(cached)})
+            if not same_out(mp, plain):
+                corr_fail(R, {'stream': 'alias', 'world': world_spec, 'history': alias_cut(case, k), 'index': k, 'observed': 'uncached'},
+                          {'model': brief(mp), 'impl': brief(plain)})
+
+
+def alias_exhaustive_cases():
+    """small scope: ONE bounds list and ONE state object, every history of length <= L over in-place changes and requests under one cache id"""
+    spec = {'shapes': [[3, 4], [4, 3]], 'rels': [None, {'parent': 0, 'axes': [['same', 1], ['same', 0]]}]}
+    changes = [['setb', 0, 0, ['r', '1', '2', 2]], ['setb', 0, 0, ['r', '0', '2', 3]], ['setb', 0, 1, ['r', '2', '0', 3]], ['setb', 0, 0, ['s', '1']],
+               ['setb', 0, 0, ['s', '2']], ['sets', 1, 2, 1], ['sets', 1, 2, 0]]
+    reqs = [['req', {'s': 1, 't': 0, 'ba': 0, 'what': w, 'broadcast': True, 'cache': 'A', 'implicit_target': False}] for w in (['attr', 0], ['state', 2])]
+    base = {'bounds0': [[['r', '0', '2', 3], ['r', '0', '3', 4]]], 'states0': [[0, 1], [0, 1]], 'ints': False}
+    return spec, base, changes, reqs
+
+
+def stream_alias(R):
+    lines, meta = [], []
+    # (i) small scope, exhaustive
+    spec, base, changes, reqs = alias_exhaustive_cases()
+    world = make_world(spec)
+    B = Built(world)
+    L = R.pick(4, 5)
+    nex = 0
+    for ln in range(1, L + 1):
+        for ops in itertools.product(changes + reqs, repeat=ln):
+            if ops[-1][0] != 'req' or ops[0][0] != 'req':
+                continue                  # a history begins and ends with a request
+            if any(ops[j][0] != 'req' and ops[j + 1][0] != 'req' and ops[j][0] == ops[j + 1][0] and ops[j][1:3] == ops[j + 1][1:3] for j in range(ln - 1)):
+                continue                  # the second of two changes of the same item in a row overrides the first
+            case = dict(base, ops=[list(o) if o[0] != 'req' else ['req', dict(o[1])] for o in ops])
+            res = run_alias(B, case)
+            if any(x[2][0] == 'half' for x in res):
+                continue
+            lines.append(alias_enc(world, B.full, case))
+            meta.append((spec, case, res, B))
+            nex += 1
+            R.count(('alias-exh', repr(case['ops'])), nontrivial=True, stream='alias', alias_history_len=ln)
+    # (ii) seeded
+    N = R.pick(450, 3000)
+    for i in range(N):
+        rng = R.subrng('alias', i)
+        if rng.random() < 0.25:
+            spec = gen_world_w(rng)
+        else:
+            spec = gen_world(rng, maxdim=3, maxsize=4)
+        world = make_world(spec)
+        B = Built(world)
+        if spec.get('kind') != 'world' and not structure_ok(B):
+            R.hist['skipped']['link structure differs from the harness derivation'] += 1
+            continue
+        case = gen_alias_case(rng, world, B.full, 9)
+        res = run_alias(B, case)
+        lines.append(alias_enc(world, B.full, case))
+        meta.append((spec, case, res, B))
+        for cached, plain, dr, rr, info in res:
+            R.count(('alias', repr(spec), repr(case['bounds0']), repr(rr), repr(info)), nontrivial=dr[0] == 'ok' and dr[1].size > 0,
+                    stream='alias', outcome=req_kind(world, rr, dr), what=rr['what'][0], cache=str(rr['cache']),
+                    n_scalar_bounds=sum(1 for b in rr['bounds'] if b[0] == 's'),
+                    alias_bounds_object=('changed in place' if info['bounds_object_changed_in_place'] else 'as first passed'),
+                    alias_state_object=('changed in place' if info['state_object_changed_in_place'] else ('unchanged' if rr['what'][0] == 'mask' else 'none')))
+        if i < 2:
+            R.sample({'world': spec, 'history': dict(case, ops=case['ops'][:5])})
+    outs = R.model(lines)
+    for (spec, case, res, B), o in zip(meta, outs):
+        if o is None or is_err(o):
+            judge_alias(R, spec, case, res, B)
+            if o is not None:
+                corr_fail(R, {'stream': 'alias', 'world': spec, 'history': case}, {'model': 'error %s' % err_code(o)})
+        else:
+            judge_alias(R, spec, case, res, B, kids(kids(o)[0]), kids(kids(o)[1]))
+    R.stream('alias', histories=len(meta), exhaustive_histories=nex, exhaustive=False,
+             bound='histories in which the caller keeps ONE bounds list (of two) / subset-state object and changes it in place between requests '
+                   '(bounds[i] = ..., bounds[:] = ..., state.lo / state.hi = ...) under one or two cache ids: (i) every history of length <= %d over '
+                   '7 in-place changes and 2 requests on one list and one state object (fixed world, axes swapped); (ii) %d seeded histories of 3-9 requests over '
+                   'tree and world-coordinate worlds (half of them with ranged bounds only). Implementation with / without cache id, Coq model '
+                   '(keys as glue stores them: bounds by value, subset state by object), direct oracle' % (L, N))
+
+
+def shrink_alias(R):
+    """drop operations of a failing history (never the last request) while the last request still fails in the same way"""
+    done = 0
+    for f in R.failures:
+        if f['kind'] != 'oracle' or f['case'].get('stream') != 'alias' or done >= 4:
+            continue
+        done += 1
+        case = f['case']
+        cls = f['detail'].get('failure_class')
+        hist = case['history']
+        key = f.get('key')
+
+        def fails(h):
+            try:
+                r = replay(None, dict(case, history=h, index=sum(1 for o in h['ops'] if o[0] == 'req') - 1))
+            except Exception:  # noqa
+                return False
+            return r.get('violates_class') == cls and r.get('key') == key
+        ops = list(hist['ops'])
+        changed = True
+        while changed and len(ops) > 1:
+            changed = False
+            for i in range(len(ops) - 1):
+                h2 = dict(hist, ops=ops[:i] + ops[i + 1:])
+                if fails(h2):
+                    ops = h2['ops']
+                    changed = True
+                    break
+        hist = dict(hist, ops=ops)
+        k = sum(1 for o in ops if o[0] == 'req') - 1
+        f['case'] = dict(case, history=hist, index=k)
+        f['case'].pop('request_as_value', None)
+        f['case'].pop('objects', None)
+
+
+def replay_alias(R, case):
+    world = make_world(case['world'])
+    B = Built(world)
+    hist = case['history']
+    res = run_alias(B, hist)
+    k = case.get('index', len(res) - 1)
+    cached, plain, dr, rr, info = res[k]
+    cls = None
+    if not same_out(cached, plain):
+        cls = 'cache'
+    elif (dr[0] == 'ok' and not same_out(plain, dr)) or (dr[0] == 'err' and plain[0] == 'ok'):
+        cls = 'nearest'
+    key = alias_known_key(B, alias_cut(hist, k), k, cls) if cls else None
+    out = {'case': case, 'cached': brief(cached), 'uncached': brief(plain), 'expected': brief(dr), 'request_as_value': rr, 'objects': info,
+           'failing_classes': [cls] if cls else [], 'key': key,
+           'violates_class': ('cache-state-in-place' if key else cls), 'violates': bool(cls)}
+    if R is not None and R.model_available:
+        o = R.model([alias_enc(world, B.full, hist)])[0]
+        if o is not None and not is_err(o):
+            is_mask = rr['what'][0] == 'mask'
+            out['model_cached'] = brief(dec_out(kids(kids(o)[0])[k], is_mask))
+            out['model_uncached'] = brief(dec_out(kids(kids(o)[1])[k], is_mask))
+    return out
+
+
 def stream_round(R):
     """np.round(x).astype(int) against the model's round_half_even on exactly representable values, halves included"""
     vals = [F(k, 8) for k in range(-40, 41)] + [F(k, 2) for k in range(-21, 22)] + [F(10 ** 6 * 2 + 1, 2), F(-(10 ** 6 * 2 + 1), 2)]
@@ -1301,7 +1742,9 @@ def run(R):
     stream_image_layers(R)
     stream_world_links(R)
     stream_nonlinear(R)
+    stream_alias(R)
     shrink_failures(R)
+    shrink_alias(R)
 
 
 def shrink_failures(R):
@@ -1355,6 +1798,8 @@ def replay(R, case):
             is_mask = seq[k]['what'][0] == 'mask'
             out['model_cached'] = brief(dec_out(kids(kids(o)[0])[k], is_mask))
             out['model_uncached'] = brief(dec_out(kids(kids(o)[1])[k], is_mask))
+    elif st == 'alias':
+        return replay_alias(R, case)
     else:
         out['note'] = 'replay by re-running the stream: ./check C16 --tier quick'
         out['violates'] = False
